@@ -202,12 +202,74 @@ def close(x, y):
     return abs(x - y) <= 1e-10 * max(abs(x), abs(y)) + 1e-300
 
 
+def shared_grain(res, rng, n):
+    """a rate is a function of the reaction and the dust model, not of what the grain object was asked before: several
+    species (one parent neutral and charged on the surface, different binding energies) through ONE grain instance, in
+    two orders, against a fresh instance per request"""
+    eb = {"HCO": 1600.0, "HCO+": 2400.0, "CO": 1150.0, "H2O": 5700.0, "CO+": 1300.0, "H2O+": 4800.0}
+    for k in range(n):
+        mname = rng.choice(list(MODELS))
+        fmt = rng.choice(["leeds", "uclchem", "naunet"])
+        group = rng.choice([0, 0, 2])
+        ice = (lambda x: "G" + x) if fmt == "leeds" else (lambda x: "#" + x)
+        reqs = []
+        for _ in range(rng.randint(3, 7)):
+            proc = rng.choice(["thermal", "cosmicray", "photon", "freeze", "h2"])
+            if (fmt == "leeds" and proc == "h2"):
+                continue
+            base = rng.choice(list(eb))
+            if proc == "freeze":
+                reac, prod = [base], [ice(base.rstrip("+"))]
+            else:
+                reac, prod = [ice(base)], [base]
+            reqs.append((proc, reac, prod, base))
+        if not reqs:
+            continue
+
+        def build():
+            out = []
+            for proc, reac, prod, base in reqs:
+                r = make_reaction(fmt, proc, reac, prod, 1.0)
+                for s_ in r.reactants:
+                    if s_.is_surface:
+                        s_.binding_energy = eb[base]
+                out.append(r)
+            return out
+
+        def ask(grain_for, order):
+            objs = build()
+            got = [None] * len(objs)
+            for j in order:
+                try:
+                    got[j] = objs[j].rateexpr(grain_for(j))
+                except Exception as e:
+                    got[j] = "refused:" + type(e).__name__
+            return got
+        fresh = ask(lambda j: MODELS[mname](group=group), range(len(reqs)))
+        one = MODELS[mname](group=group)
+        fwd = ask(lambda j: one, range(len(reqs)))
+        two = MODELS[mname](group=group)
+        order = list(range(len(reqs)))
+        rng.shuffle(order)
+        shuf = ask(lambda j: two, order)
+        case = {"kind": "c11-shared-grain", "model": mname, "format": fmt, "group": group, "requests": [[p_, a, b] for p_, a, b, _ in reqs], "order": order}
+        for how, g in (("in the listed order", fwd), (f"in the order {order}", shuf)):
+            if g != fresh:
+                j = next(i for i in range(len(reqs)) if g[i] != fresh[i])
+                res.violation("oracle", f"{mname}/{fmt}: request {j} ({reqs[j][0]} {reqs[j][1]}->{reqs[j][2]}) through a grain object that served the other "
+                                        f"requests {how} gives {g[j]!r}; a fresh grain object gives {fresh[j]!r}", case)
+                break
+        res.count("shared-grain request lists")
+        res.case(("c11-shared", k, mname, fmt, repr(reqs)), nontrivial=any(not str(x).startswith("refused") for x in fresh))
+
+
 def run(res, info):
     rng = random.Random(res.seed * 7919 + 11)
     model = fw.Model() if info["ok"] else None
     res.rule = ("5 dust models x 9 processes x 3 reaction formats (Leeds, UCLCHEM, native) x 4 classes of alpha x species variants (neutral / ion / "
                 "electron accretion, GH/GH2 tunnelling variants, binding energy from explicit / user / RATE12 source, yields) x grain groups 0, 2; "
-                "non-trivial = an expression is emitted")
+                "lists of requests (a parent neutral and charged on the surface, different binding energies) through one grain object in two orders "
+                "against fresh objects; non-trivial = an expression is emitted")
     res.assumptions = ["finite coefficients", "symbols the reaction format does not register make the request fail with AttributeError (counted as refused)"]
     batches = {}
     for mname, proc, fmt in itertools.product(MODELS, PROCS, ("leeds", "uclchem", "naunet")):
@@ -286,6 +348,7 @@ def run(res, info):
                 res.violation("oracle", f"{mname} implements {proc} but the request is refused", case)
             res.case(("c11", mname, proc, fmt, tuple(reac), ka, group, src), sample={"model": mname, "process": proc, "format": fmt, "rate": i[1][:120]},
                      nontrivial=i[0] == "ok")
+    shared_grain(res, rng, 120 if res.tier == "quick" else 2500)
     for group, items in batches.items():
         vals, bad = run_c([x[0] for x in items], group)
         res.count("compiled expressions", len(items))
